@@ -5,3 +5,14 @@ From LN Require Import C11_Defs.
 Extraction Language OCaml.
 Extraction "extracted/c11_model.ml" fes_init fes_done fobs mean_error mean_loss stat_row fboost fkept_learners
   fkept_rows slot slot_read slot_log task_slot es_round es_value es_values ls_learners ls_rows ls_es.
+
+(* extension "assemble" (C11_Assemble_Defs): the model-assembly code of gboost_model_t over exact rationals, together with
+   the C10 learner model it is built on. A separate file with Z / positive mapped to Zarith big integers (the mapping is
+   loaded after the extraction above, which keeps the inductive Z its driver expects): the per-learner predictions of a
+   fit are doubles, their exact sums have numerators of thousands of bits. *)
+Require Import QArith ExtrOcamlZBigInt.
+From LN Require Import C10_Defs C11_Assemble_Defs.
+Extraction "extracted/c11_asm_model.ml" assemble asm_collect asm_finish asm_reset asm_folds_visited asm_denom fold_models
+  gbm_predict sum_incrs avg_rows result_done bloop
+  C10_Defs.merge C10_Defs.scale C10_Defs.try_merge C10_Defs.zeros
+  Qplus Qminus Qmult Qdiv Qopp Qle_bool Qeq_bool inject_Z.
